@@ -22,3 +22,12 @@ Collection.vos Collection.vok Collection.required_vos: Collection.v Stack.vos
 CollectionFacts.vo CollectionFacts.glob CollectionFacts.v.beautified CollectionFacts.required_vo: CollectionFacts.v Bytes.vo BytesFacts.vo Segment.vo SegmentFacts.vo Stack.vo StackFacts.vo Collection.vo
 CollectionFacts.vio: CollectionFacts.v Bytes.vio BytesFacts.vio Segment.vio SegmentFacts.vio Stack.vio StackFacts.vio Collection.vio
 CollectionFacts.vos CollectionFacts.vok CollectionFacts.required_vos: CollectionFacts.v Bytes.vos BytesFacts.vos Segment.vos SegmentFacts.vos Stack.vos StackFacts.vos Collection.vos
+Store.vo Store.glob Store.v.beautified Store.required_vo: Store.v Collection.vo
+Store.vio: Store.v Collection.vio
+Store.vos Store.vok Store.required_vos: Store.v Collection.vos
+LowerLevel.vo LowerLevel.glob LowerLevel.v.beautified LowerLevel.required_vo: LowerLevel.v Collection.vo
+LowerLevel.vio: LowerLevel.v Collection.vio
+LowerLevel.vos LowerLevel.vok LowerLevel.required_vos: LowerLevel.v Collection.vos
+StoreFacts.vo StoreFacts.glob StoreFacts.v.beautified StoreFacts.required_vo: StoreFacts.v Bytes.vo BytesFacts.vo Segment.vo SegmentFacts.vo Stack.vo StackFacts.vo Collection.vo CollectionFacts.vo Store.vo LowerLevel.vo
+StoreFacts.vio: StoreFacts.v Bytes.vio BytesFacts.vio Segment.vio SegmentFacts.vio Stack.vio StackFacts.vio Collection.vio CollectionFacts.vio Store.vio LowerLevel.vio
+StoreFacts.vos StoreFacts.vok StoreFacts.required_vos: StoreFacts.v Bytes.vos BytesFacts.vos Segment.vos SegmentFacts.vos Stack.vos StackFacts.vos Collection.vos CollectionFacts.vos Store.vos LowerLevel.vos
